@@ -221,7 +221,7 @@ def md_parse_driver(ctx, args):
     return ctx.call(parse, [new_ref(parser), args[0]])
 
 
-def mk_md_setup(seq):
+def mk_md_setup(seq, eol="\n", final_eol=True):
     def setup(ctx):
         text = []
         payloads = []
@@ -230,7 +230,8 @@ def mk_md_setup(seq):
             chars, payload = md_line(ctx, t, i)
             lines.append(chars)
             payloads.append(payload)
-            text += chars + [SInt(10, "char")]
+            text += chars + ([SInt(ord(c), "char") for c in eol] if (final_eol or i < len(seq) - 1) else [])
+        ctx.notes["eol"] = (eol, final_eol)
         ctx.notes["seq"] = seq
         ctx.notes["lines"] = lines
         ctx.notes["payloads"] = payloads
@@ -422,12 +423,19 @@ def h_md_parse(max_len):
             seqs.append(s_)
             seen.add(s_)
     inputs = [("doc=%s" % (s or "(empty)"), mk_md_setup(s)) for s in seqs]
+    # the same parse for CR LF line endings and for a document cut off after its last line (no final newline)
+    for s_ in md_sequences(max_len - 1, "PBFCGXE"):
+        if s_:
+            inputs.append(("doc=%s (CR LF line endings)" % s_, mk_md_setup(s_, eol="\r\n")))
+            if s_[-1] != "B":      # (an empty last line without newline is no line at all)
+                inputs.append(("doc=%s (no final newline)" % s_, mk_md_setup(s_, final_eol=False)))
     h = e2.Harness("markdown_parse_documents", md_parse_driver, inputs, md_post, native="markdown_parse", judge=None,
                    describe="parse is Err, or yields exactly the scrut blocks that contain a `$` command, in order, with the written shell "
                             "expression (incl. `>` continuations), expectation lines, exit code, 1-based line number of the `$` line and the "
                             "nearest preceding heading/paragraph as title (where that is unambiguous)",
                    bound="all documents of <= %d lines over the line templates %s, and of <= %d lines over the templates P B F C E, with symbolic "
-                         "lowercase payload letters; language 's'" % (max_len, {k: v[0] + "·" * v[1] + (v[2] if len(v) > 2 else "") for k, v in MD_TEMPLATES.items()}, max_len + 2))
+                         "lowercase payload letters; language 's'; documents of <= %d lines over P B F C G X E also with CR LF line endings and without final newline"
+                         % (max_len, {k: v[0] + "·" * v[1] + (v[2] if len(v) > 2 else "") for k, v in MD_TEMPLATES.items()}, max_len + 2, max_len - 1))
     h.models_cls = DocModels
     return h
 
@@ -437,7 +445,8 @@ def replay_md(rep, nat, h, res):
         seq = r.ctx.notes["seq"]
         payloads = ["".join(chr(e2.model_int(model, c)) for c in p) for p in r.ctx.notes["payloads"]]
         lines = [md_text(t, p) for t, p in zip(seq, payloads)]
-        doc = "\n".join(lines) + ("\n" if lines else "")
+        eol, final_eol = r.ctx.notes.get("eol", ("\n", True))
+        doc = eol.join(lines) + (eol if lines and final_eol else "")
         nk, nv = nat.call("markdown_parse", [doc, ["s"]])
         if nk != "return":
             rep.violation("parse:panic", "MarkdownParser::parse panics on %r: %s" % (doc, str(nv)[:80]),
